@@ -41,10 +41,21 @@ impl Module {
         impls: &[grammar::FunctionBlock],
         backends: &[grammar::Backend],
     ) -> anyhow::Result<Self> {
-        let impls = impls
-            .iter()
-            .map(|f| (path.join(f.name.as_str().into()), f.clone()))
-            .collect();
+        // Several `impl` blocks for the same type are merged, in source order.
+        let mut impls_map: HashMap<ItemPath, grammar::FunctionBlock> = HashMap::new();
+        for block in impls {
+            match impls_map.entry(path.join(block.name.as_str().into())) {
+                std::collections::hash_map::Entry::Occupied(mut entry) => {
+                    let merged = entry.get_mut();
+                    merged.functions.extend(block.functions.iter().cloned());
+                    merged.attributes.0.extend(block.attributes.0.iter().cloned());
+                }
+                std::collections::hash_map::Entry::Vacant(entry) => {
+                    entry.insert(block.clone());
+                }
+            }
+        }
+        let impls = impls_map;
 
         let mut backends_map: HashMap<String, Vec<Backend>> = HashMap::new();
         for backend in backends {
